@@ -212,6 +212,24 @@ def recipes():
         return (dict(path=p, filebytes=open(p, 'rb').read(), widths=[16, 16, 16, 16], ranges=[1024.0] * 4),
                 lambda a: FlowCal.io.read_fcs_data_segment(a['path'], h.data_begin, h.data_end, 'I', 180, a['widths'], True, a['ranges']), after_file)
     add('io.read_fcs_data_segment', ['int'], b_data)
+
+    def b_data_arrays(d, k, mixed, wtype):
+        # the per-parameter widths and ranges handed over as NumPy arrays (np.array of the $PnB / $PnR values), uniform and mixed widths
+        bits = [16, 32, 8] if mixed else [16, 16, 16]
+        lay = dict(datatype='I', bits=bits, ranges=[1024, 65536, 256] if mixed else [1024] * 3, byteord='1,2,3,4',
+                   events=[[(37 * i + 11 * j) % 256 for j in range(3)] for i in range(20)])
+        p = os.path.join(scratch(), 'c13_seg_%d.fcs' % mixed)
+        buf, _ = fcsgen.build(lay)
+        with open(p, 'wb') as f:
+            f.write(buf)
+        h = FlowCal.io.read_fcs_header_segment(open(p, 'rb'))
+        wrap = {'int64': lambda x: np.array(x, dtype=np.int64), 'int32': lambda x: np.array(x, dtype=np.int32), 'tuple': tuple}[wtype]
+        return (dict(path=p, filebytes=open(p, 'rb').read(), widths=wrap(bits), ranges=np.array(lay['ranges'], dtype=float)),
+                lambda a: FlowCal.io.read_fcs_data_segment(a['path'], h.data_begin, h.data_end, 'I', 20, a['widths'], False, a['ranges']), after_file)
+    for mixed in (0, 1):
+        for wtype in ('int64', 'int32', 'tuple'):
+            add('io.read_fcs_data_segment(%s widths as %s)' % ('mixed' if mixed else 'uniform', wtype), ['int'],
+                lambda d, k, mixed=mixed, wtype=wtype: b_data_arrays(d, k, mixed, wtype))
     add('io.FCSFile.__eq__/__hash__', ['int'], lambda d, k: (dict(path=write_root('int')), lambda a: (
         FlowCal.io.FCSFile(a['path']) == FlowCal.io.FCSFile(a['path']), hash(FlowCal.io.FCSFile(a['path'])) == hash(FlowCal.io.FCSFile(a['path'])))))
 
